@@ -20,6 +20,7 @@ THEOREMS = ["C08_reachable_wf", "C08_decoded_keys_unique", "C08_merge_exact", "C
             "C08_full_refresh_closes", "C08_invalidate", "C08_invalidate_coordinator_request",
             "C08_coordinator_failed_send_keeps_cache", "C08_reresolve", "C08_cached_no_request", "C08_lookups_ask",
             "C08_recovery_partial", "C08_recovery_routes_all_partial", "C08_stale_never_grows", "C08_fresh_iff_no_stale",
+            "C08_recovery_within_budget", "C08_recovery_single_topic", "C08_stale_count_meaning",
             "C08_next_connect_address", "C08_live_connection_kept"]
 
 
